@@ -10,7 +10,8 @@ Python source on every run.  This file models the control flow around it *as it 
   (`Res`), so that "an assignment that raises leaves the grid unchanged" is a theorem about this model and not
   an artefact of an `Except` monad;
 * `None` can be assigned to all three quantities (the setters accept it), except to a locked, defined extent;
-* no positivity check exists in the code, none is modelled (`gpts = 0`, negative extents … are accepted);
+* assigned gpts must be positive (`validate_gpts`, ValueError — since the repair in /repo); no positivity check exists for
+  extents and samplings, none is modelled (negative extents … are accepted);
 * `ZeroDivisionError` of `r / d` for a zero sampling in `_adjust_gpts` (Python floats) is modelled;
 * the lock test of the extent setter is `numpy.allclose(new, old)` (rtol 1e-5, atol 1e-8, with numpy
   broadcasting of a scalar / length-1 / mismatching sequence) — modelled exactly over `Rat`.
@@ -54,6 +55,15 @@ def validate (dims : Nat) : Val → Except String (Option (List Rat))
   | .none => .ok none
   | .scalar x => .ok (some (List.replicate dims x))
   | .seq xs => if xs.length ≠ dims then .error "runtime_error" else .ok (some xs)
+
+/-- `_validate(gpts, dtype=int)` followed by `validate_gpts` (ValueError unless every entry is `> 0`; since fix in /repo) -/
+def validateGpts (dims : Nat) (v : Val) : Except String (Option (List Int)) :=
+  match validate dims v with
+  | .error e => .error e
+  | .ok none => .ok none
+  | .ok (some l) =>
+    let ns := l.map pyInt
+    if ns.all (fun n => decide (0 < n)) then .ok (some ns) else .error "value_error"
 
 /-- `zip(a, b, c)` then the element function -/
 def zipWith3 {α β γ δ} (f : α → β → γ → δ) : List α → List β → List γ → List δ
@@ -148,9 +158,9 @@ def setGptsCore (g : Grid) (vg : Option (List Int)) : Res :=
 def setGpts (g : Grid) (v : Val) : Res :=
   if g.lockGpts then (g, some "runtime_error")
   else
-    match validate g.dims v with
+    match validateGpts g.dims v with
     | .error e => (g, some e)
-    | .ok vr => setGptsCore g (vr.map (fun l => l.map pyInt))
+    | .ok vg => setGptsCore g vg
 
 /-- body of the sampling setter after validation -/
 def setSamplingCore (g : Grid) (vs : Option (List Rat)) : Res :=
@@ -187,9 +197,9 @@ def run (g : Grid) (ops : List Op) : Grid := ops.foldl (fun g op => (step g op).
 /-- `Grid.__init__` (exceptions abort the construction).  `endpoint` is the tuple the constructor stores
 (a bool is replicated by the caller of this function, see `initB`). -/
 def init (dims : Nat) (endpoint : List Bool) (extent gpts sampling : Val) (lockE lockG lockS : Bool) : Except String Grid :=
-  match validate dims extent, validate dims gpts, validate dims sampling with
+  match validate dims extent, validateGpts dims gpts, validate dims sampling with
   | .ok e, .ok gp, .ok s =>
-    let g0 : Grid := { dims := dims, endpoint := endpoint, extent := e, gpts := gp.map (fun l => l.map pyInt), sampling := s,
+    let g0 : Grid := { dims := dims, endpoint := endpoint, extent := e, gpts := gp, sampling := s,
                        lockExtent := lockE, lockGpts := lockG, lockSampling := lockS }
     let r1 : Res := if g0.extent.isNone then adjustExtent g0 g0.gpts g0.sampling else (g0, none)
     let r2 : Res := r1.bind fun g1 => if g1.gpts.isNone then adjustGpts g1 g1.extent g1.sampling else (g1, none)
